@@ -107,7 +107,7 @@ def instrument():
     return tw, Heap
 
 
-def explore(tier="quick", only_functions=None):
+def explore(tier="quick", prop="C05"):
     """(1) exhaustive closure of the reachable state space for small capacities and cost alphabets: every legal
     operation from every reachable (heap, model) state, so histories of ANY length over that scope are covered;
     (2) random long histories on larger heaps."""
